@@ -46,7 +46,7 @@ PROPS = {
     "C02": {
         "rx": True,
         "n": {"quick": 2500, "thorough": 150000},
-        "cone": ["Bytes", "Regex", "Generated", "Netconf", "NetconfLemmas", "NcSession", "NcSessionLemmas", "NcSegLemmas", "BytesLemmas", "Channel", "PlatformTypes", "DecideLang", "GeneratedSkel", "RecordSrc", "RecordSrcOk"],
+        "cone": ["Bytes", "Regex", "Generated", "Netconf", "NetconfLemmas", "NcSession", "NcSessionLemmas", "NcSegLemmas", "BytesLemmas", "Channel", "PlatformTypes", "DecideLang", "GeneratedSkel", "RecordSrc", "RecordSrcOk", "NcReadSrc"],
         "rule": "NetconfResponse.Record on raw bytes under recover(): well-formed stream = generated payloads (multi-byte UTF-8, '#', digits, "
                 "LF, ']]>' and rpc-error variants at chunk edges) x random partitions (incl. 1-byte chunks) x surrounding whitespace; malformed "
                 "stream = truncations, size mutations (negative/alpha/oversize/empty), dropped terminator, junk at marker positions, over-long "
@@ -231,7 +231,7 @@ PROPS = {
     },
     "C08": {
         "n": {"quick": 120, "thorough": 5000},
-        "cone": ["Bytes", "BytesLemmas", "Regex", "Generated", "Netconf", "NetconfLemmas", "NcSession", "NcSessionLemmas", "NcSegLemmas", "NcExtraLemmas", "Channel", "PlatformTypes", "DecideLang", "GeneratedSkel", "NcStoreSrc", "RpcSrc"],
+        "cone": ["Bytes", "BytesLemmas", "Regex", "Generated", "Netconf", "NetconfLemmas", "NcSession", "NcSessionLemmas", "NcSegLemmas", "NcExtraLemmas", "Channel", "PlatformTypes", "DecideLang", "GeneratedSkel", "NcStoreSrc", "RpcSrc", "NcReadSrc"],
         "rx": True,
         "rule": NC_RULE + " Histories of 1-25 RPCs with 60 ms timeouts and late replies; non-trivial = more than one request.",
         "level_text": "C08_reply_never_lost / _message_any_split: for any cut of a reply into reads (no boundary making a proper prefix look complete) the call carrying its message-id returns it, other ids' entries untouched. Theorems C08_ids / _own_reply / _own_request / _complete_message_filed / _incomplete_kept / _late_reply_harmless / _no_panic over the "
